@@ -1326,7 +1326,7 @@ func TestVerifC15(t *testing.T) {
 		res := c15RunCase(rec, car, c)
 		rec.Eval(1)
 		rec.Count("groups_delivered", res.groups)
-		rec.Count("objects_checked_x2", int(res.objects))
+		rec.Count("objects_checked_entry_and_exit", int(res.objects))
 		rec.Count("reader_reads", res.reads)
 		if res.inconc != "" {
 			rec.Inconclusive(res.inconc)
